@@ -26,7 +26,7 @@
    (ante handler, gas, block gas) is observed ([c_ok]).
 
    Executable Gallina only. *)
-From Evm Require Export TxPipe.
+From Evm Require Export TxPipe TxPipeExt.
 Open Scope Z_scope.
 
 Definition denom := Z.
@@ -131,3 +131,22 @@ Fixpoint drun (s : dst) (l : list ditem) : dst * list txres :=
 (* a Cosmos item is consistent with the bank when its observed success implies that the sends were affordable *)
 Definition cosmos_consistent (L : ledger) (ok : bool) (sends : list send) : bool :=
   negb ok || match send_all L sends with Some _ => true | None => false end.
+
+(* ---------------------------------------------------------------- histories with aborted executions
+   An Ethereum transaction whose execution is aborted by a panic (Model/TxPipeExt.v deliver_panic) leaves the other
+   denominations alone: its only effects are the ante handler's, which builds EVM-denomination coins. *)
+Inductive xitem :=
+| XItem (i : ditem)
+| XPanic (t : txd) (gu : Z).
+
+Definition xstep (s : dst) (i : xitem) : dst * list txres :=
+  match i with
+  | XItem i => dstep s i
+  | XPanic t gu => let '(c, r) := deliver_panic (d_core s) t gu in (mkDst c (d_other s), [r])
+  end.
+
+Fixpoint xrun (s : dst) (l : list xitem) : dst * list txres :=
+  match l with
+  | [] => (s, [])
+  | i :: r => let '(s1, r1) := xstep s i in let '(s2, r2) := xrun s1 r in (s2, r1 ++ r2)
+  end.
